@@ -1,23 +1,13 @@
 From Coq Require Import NArith Bool List String.
-From PK Require Import Base.Outcome Base.Finite Base.Machine Gen.Types Impl Spec.Frame Ext.Ps2 ExtI.Ps2 Check.Ps2M Check.C08 Enc.
+From PK Require Import Base.Outcome Base.Finite Base.Machine Base.Reach Gen.Types Impl Spec.Frame Ext.Ps2 ExtI.Ps2 Check.Ps2M Check.C08 Enc.
 Import ListNotations.
 Local Open Scope N_scope.
 Notation I := ext_ps2.
 Notation s0 := 0.
 Definition enc_op (op : bit_op) : N := match op with Bit false => 0 | Bit true => 1 | Clear => 2 end.
-(* breadth-first paths from the initial state; stop at the first operation that panics *)
+(* breadth-first from the initial state; a shortest operation sequence whose last operation panics *)
 Definition find_panic : option (list bit_op) :=
-  (fix go (fuel : nat) (known frontier : list (ps_st I * list bit_op)) : option (list bit_op) :=
-     match fuel with O => None | S f =>
-       let r := fold_left (fun (acc : option (list bit_op) * list (ps_st I * list bit_op)) sp =>
-            fold_left (fun (acc : option (list bit_op) * list (ps_st I * list bit_op)) op =>
-               match fst acc with Some _ => acc | None =>
-                 match m_step (ps2_machine I) (fst sp) op with
-                 | Ret (s', _) => if existsb (fun q => ps_eqb I (fst q) s') (known ++ snd acc) then acc else (None, snd acc ++ [(s', snd sp ++ [op])])
-                 | Panic => (Some (snd sp ++ [op]), snd acc)
-                 end end) all_ops acc) frontier (None, []) in
-       match fst r with Some p => Some p | None =>
-         match snd r with [] => None | next => go f (known ++ next) next end end end) 64%nat [(s0, [])] [(s0, [])].
+  kfind_panic (ps2_machine I) (ps_eqb I) (fun s : N => s) all_ops 4000 300000 s0.
 Eval vm_compute in ("cex"%string,
   (* no table (state bound exceeded) means nothing to search here; the harness searches the crate itself *)
   if ext_ps2_states =? 0 then [] else
